@@ -40,8 +40,8 @@ func init() {
 				// head or the tail of a good line's output id (whatever a failing run tidies up must be its own)
 				var bad, good []int
 				for i, l := range sc.Lines {
-					if l.Bad != "" && len(l.Drop) == 0 {
-						bad = append(bad, i)
+					if l.Bad != "" && len(l.Drop) == 0 && !strings.Contains(strings.Join(l.Extra, " "), "plotNr=") {
+						bad = append(bad, i) // (a failing line on the project's own plot: the two ids then share the plot part)
 					} else if l.Bad == "" {
 						good = append(good, i)
 					}
@@ -72,6 +72,9 @@ func init() {
 					}
 					if v > f {
 						sc.Lines[v], sc.Lines[f] = sc.Lines[f], sc.Lines[v]
+					}
+					if r.Bool(0.6) {
+						sc.Sched.Concurrency = 1 // the good line has finished when the failing line runs
 					}
 					sc.Params["relatedids"] = "1"
 				}
